@@ -382,6 +382,38 @@ func checkV1(c V1Case) error {
 					nfc.MissedProofOutputs[1].Value, nfc.MissedProofOutputs[2].Value, wantValid, sum(cp, ncoll), sum(wantBase, baseColl))
 			}
 			rcostGot = toBig(rhp2.ContractRenewalCost(cs, nfc, fromBig(cp), fromBig(fee), basePrice))
+			// the exported pieces called on their own give what the constructor used
+			if hv, hm, vm, bp := rhp2.CalculateHostPayouts(cur, fromBig(ncoll), host, end); hv != nfc.ValidProofOutputs[1].Value || hm != nfc.MissedProofOutputs[1].Value || vm != nfc.MissedProofOutputs[2].Value || bp != basePrice {
+				return failf("v1/renew2/calculate-host-payouts", "rhp2.CalculateHostPayouts = %v %v %v %v, the prepared renewal carries %v %v %v %v", hv, hm, vm, bp, nfc.ValidProofOutputs[1].Value, nfc.MissedProofOutputs[1].Value, nfc.MissedProofOutputs[2].Value, basePrice)
+			}
+			// the collateral proposals: as much as the host's rate gives for the new data, never lifting the total above the
+			// host's maximum (a base collateral at or above the maximum leaves no room at all)
+			if end >= cur.WindowEnd && end >= c.HostHeight {
+				if newRate := mul(cpr, bu(c.NewStorage), bu(end-c.HostHeight)); newRate.BitLen() <= 127 && mul(cpr, bu(cur.Filesize), bu(end-cur.WindowEnd)).BitLen() <= 127 {
+					base := mul(cpr, bu(cur.Filesize), bu(end-cur.WindowEnd))
+					want := new(big.Int).Set(newRate)
+					if base.Cmp(maxc) >= 0 {
+						want.SetInt64(0)
+					} else if room := sub(maxc, base); want.Cmp(room) > 0 {
+						want = room
+					}
+					if got := toBig(rhp2.ContractRenewalCollateral(cur, c.NewStorage, host, c.HostHeight, end)); got.Cmp(want) != 0 {
+						return failf("v1/renew2/renewal-collateral", "rhp2.ContractRenewalCollateral = %v, want %v (rate %v, base collateral %v, new-data collateral %v, maximum %v)", got, want, cpr, base, newRate, maxc)
+					}
+					labels = append(labels, "v1:renewal-collateral-checked")
+				}
+			}
+			if period := end - min(end, c.HostHeight); true {
+				if full := mul(cpr, bu(c.NewStorage), bu(period)); full.BitLen() <= 127 {
+					want := full
+					if want.Cmp(maxc) > 0 {
+						want = maxc
+					}
+					if got := toBig(rhp2.ContractFormationCollateral(period, c.NewStorage, host)); got.Cmp(want) != 0 {
+						return failf("v1/renew2/formation-collateral", "rhp2.ContractFormationCollateral(%d, %d) = %v, want %v (rate %v, maximum %v)", period, c.NewStorage, got, want, cpr, maxc)
+					}
+				}
+			}
 		case "rhp3":
 			pt := rhp3.HostPriceTable{ContractPrice: fromBig(cp), WindowSize: c.WindowSize, HostBlockHeight: c.HostHeight, RenewContractCost: fromBig(rcost),
 				WriteStoreCost: fromBig(sp), CollateralCost: fromBig(cpr), MaxCollateral: fromBig(maxc)}
@@ -418,6 +450,12 @@ func checkV1(c V1Case) error {
 					nfc.MissedProofOutputs[1].Value, nfc.MissedProofOutputs[2].Value, wantValid, sum(cp, newColl), sum(wantBase, baseColl))
 			}
 			rcostGot = toBig(rhp3.ContractRenewalCost(cs, pt, nfc, fromBig(fee), basePrice))
+			if hv, hm, vm, bp, cerr := rhp3.CalculateHostPayouts(cur, fromBig(ncoll), pt, c.NewStorage, end); cerr != nil || hv != nfc.ValidProofOutputs[1].Value || hm != nfc.MissedProofOutputs[1].Value || vm != nfc.MissedProofOutputs[2].Value || bp != basePrice {
+				return failf("v1/renew3/calculate-host-payouts", "rhp3.CalculateHostPayouts = %v %v %v %v (%v), the prepared renewal carries %v %v %v %v", hv, hm, vm, bp, cerr, nfc.ValidProofOutputs[1].Value, nfc.MissedProofOutputs[1].Value, nfc.MissedProofOutputs[2].Value, basePrice)
+			}
+			if bp, bc, nc := rhp3.RenewalCosts(cur, pt, c.NewStorage, end); toBig(bp).Cmp(wantBase) != 0 || toBig(bc).Cmp(baseColl) != 0 || toBig(nc).Cmp(newColl) != 0 {
+				return failf("v1/renew3/renewal-costs", "rhp3.RenewalCosts = %v %v %v, want %v %v %v", bp, bc, nc, wantBase, baseColl, newColl)
+			}
 		default:
 			return stats.Failf("", "harness: unknown renewal kind")
 		}
